@@ -58,7 +58,7 @@ def hand_written():
             TG("SCALARS", M(ST("", M(S("char")), M(S("int")), M(S("long")), M(S("int64")), M(S("uchar")), M(S("uint")), M(S("ulong")),
                                M(S("uint64")), M(S("float")), M(S("double"))))),
             TG("STRINGS", M(ST("", M(S("char"), 8), M(S("char"), 256)))),
-            TG("ARRAYS", M(ST("", M(S("uint"), 3), M(S("double"), 2), M(S("long"), 2, 2), M(S("float"), 1)))),
+            TG("ARRAYS", M(ST("", M(S("uint"), 3), M(S("double"), 2), M(S("long"), 2, 3), M(S("float"), 1)))),
             TG("ENUMS", M(ST("", M(EN("Mode", ref=True)), M(EN("", ("X_ONE", None), ("X_TWO", 2)))))),
             TG("NESTED", M(ST("", M(ST("Pair", ref=True)), M(TS("Options", ref=True)))), block=True),
             TG("LIST", M(ST("ListItem", M(S("ulong")), M(S("char"), 20))), block=True, seq=True),
